@@ -10,8 +10,8 @@ NGroups(b, W) ==
 Canon(b, W) ==   \* canonical varint of bit vector b of width W
   LET n == NGroups(b, W)
   IN [j \in 1..n |-> Group(b, W, j-1) + (IF j < n THEN 128 ELSE 0)]
-ZigZag(b, W) == [i \in 0..(W-1) |-> IF i = 0 THEN b[W-1] ELSE Xor(b[i-1], b[W-1])]
-UnZigZag(z, W) == [i \in 0..(W-1) |-> IF i = W-1 THEN z[0] ELSE Xor(z[i+1], z[0])]
+ZigZag(b, W) == [i \in 0..(W-1) |-> IF i = 0 THEN b[W-1] ELSE BXor(b[i-1], b[W-1])]
+UnZigZag(z, W) == [i \in 0..(W-1) |-> IF i = W-1 THEN z[0] ELSE BXor(z[i+1], z[0])]
 \* ---- reading: spec-shaped ----
 \* k = index of the first byte with a clear MSB among the first VarintMax(W) bytes (0 if none)
 TermIdx(s, W) == LET m == IF Len(s) < VarintMax(W) THEN Len(s) ELSE VarintMax(W)
